@@ -128,3 +128,22 @@ fn f4_indented_first_line_reader_equals_slice() {
 		}
 	}
 }
+
+/// F5 (C02, harness i5_yaml_docless_slice; recorded, not repaired): a YAML stream without any document gives the
+/// same verdict and output from a slice as from a reader.
+#[test]
+fn f5_document_less_yaml_slice_equals_reader() {
+	let mut bad = vec![];
+	for doc in ["", "\n", "\n\n", "   \n", "# only a comment\n", "# a\n\n# b\n"] {
+		for to in [Format::Json, Format::Yaml, Format::Msgpack] {
+			let mut o1 = Vec::new();
+			let r1 = xt::translate_slice(doc.as_bytes(), Some(Format::Yaml), to, &mut o1).map_err(|e| e.to_string());
+			let mut o2 = Vec::new();
+			let r2 = xt::translate_reader(doc.as_bytes(), Some(Format::Yaml), to, &mut o2).map_err(|e| e.to_string());
+			if r1.is_ok() != r2.is_ok() || (r1.is_ok() && o1 != o2) {
+				bad.push(format!("{doc:?} -> {to}: slice {r1:?} {:?}, reader {r2:?} {:?}", String::from_utf8_lossy(&o1), String::from_utf8_lossy(&o2)));
+			}
+		}
+	}
+	assert!(bad.is_empty(), "{} violations, first: {}", bad.len(), bad[0]);
+}
